@@ -28,11 +28,11 @@ Judge(e) ==
     LET x == Outcome(e.present, e.convs, e.call) IN
     IF e.res = "crash" THEN "P:exception"
     ELSE IF x.res = "invalid" /\ x.why \in {"min", "max"} /\ e.res = "value" THEN "P:bounds"
-    ELSE IF Is400(x.res) /\ Is400(e.res) THEN (IF e.res = x.res THEN "ok" ELSE "D:error_class")
-    ELSE IF e.res # x.res THEN "P:outcome"
+    ELSE IF ~(Is400(x.res) /\ Is400(e.res)) /\ e.res # x.res THEN "P:outcome"
     ELSE IF e.res = "value" /\ (e.v # x.v \/ e.vs # x.vs) THEN "P:value"
     ELSE IF e.stored # x.stored THEN "P:store"
     ELSE IF e.stored /\ (e.sv # x.v \/ e.svs # x.vs) THEN "P:store"
+    ELSE IF e.res # x.res THEN "D:error_class"
     ELSE "ok"
 
 Step == /\ l >= 1 /\ l <= Len(T.ev) /\ verdict = "ok"
